@@ -64,14 +64,25 @@ def dyadic_values(rng, n: int, *, lo=1, hi=24, denom=8, signed=False, distinct=T
     return [k / denom for k in ks]
 
 
-def evaluate(tc, X: np.ndarray | None, *, semiring="sum-product"):
-    """Evaluate the compiled circuit; returns a numpy array (B, O, K) in *linear* space."""
+class RawNaN(Exception):
+    """The compiled circuit returned NaN in a component of its (log-space) output."""
+
+
+def evaluate(tc, X: np.ndarray | None, *, semiring="sum-product", nan_check=False):
+    """Evaluate the compiled circuit; returns a numpy array (B, O, K) in *linear* space.
+    With nan_check, a NaN real or imaginary part of the raw output raises RawNaN (exp() would hide a NaN
+    phase of a log-space zero: exp(-inf + nan j) = 0)."""
     if X is None:
         y = tc()
         y = y.unsqueeze(0)
     else:
         y = tc(torch.as_tensor(X))
     y = y.detach()
+    if nan_check:
+        parts = torch.view_as_real(y) if y.is_complex() else y
+        if torch.isnan(parts).any():
+            idx = torch.nonzero(torch.isnan(parts))[0].tolist()
+            raise RawNaN(f"raw output entry {idx[:3]} = {y[tuple(idx[:3])].item()}")
     if semiring in ("lse-sum", "complex-lse-sum"):
         y = torch.exp(y)
     return y.numpy()
